@@ -462,6 +462,19 @@ def history_case(run, rng, pv, actions, idx, encrypted=False):
                     hooks['exit'] = again_and_linger
                 raised = None
                 from_listener = state == 'active' and (idx + step) % 2 == 1
+                if state == 'active':
+                    # what the user can read from the live object, and an
+                    # option the application may have changed for next time
+                    live.cmds.put(('pos',))
+                    pc.wait_for(lambda: conn.spawned, 3.0)
+                    import minecraft as _mc
+                    wider = set(conn.allowed_proto_versions) | {
+                        _mc.SUPPORTED_PROTOCOL_VERSIONS[-1],
+                        _mc.SUPPORTED_PROTOCOL_VERSIONS[0]}
+                    saved_allowed = conn.allowed_proto_versions
+                    conn.allowed_proto_versions = wider
+                    before_attrs = (conn.spawned, conn.connected,
+                                    conn.context.protocol_version)
                 try:
                     if from_listener:
                         # on an active connection the call may as well come
@@ -484,6 +497,17 @@ def history_case(run, rng, pv, actions, idx, encrypted=False):
                 if state == 'active':
                     # must be refused, leaving the live connection undisturbed
                     hooks['exc'] = hooks['exit'] = None
+                    after_attrs = (conn.spawned, conn.connected,
+                                   conn.context.protocol_version)
+                    conn.allowed_proto_versions = saved_allowed
+                    if isinstance(raised, InvalidState) and \
+                            after_attrs != before_attrs:
+                        bad('active/attributes-changed', 'a refused connect()/'
+                            'status() changed what the live connection '
+                            'reports about itself (spawned, connected, '
+                            'protocol version)', before=before_attrs,
+                            after=after_attrs)
+                        conn.context.protocol_version = before_attrs[2]
                     if not isinstance(raised, InvalidState):
                         bad('active/not-refused', 'connect()/status() on an '
                             'active connection must raise InvalidState',
@@ -1556,6 +1580,91 @@ def hold_sweep_case(run, rng, pv, site_idx, reconnect=False):
             pc.safe_disconnect(conn)
 
 
+def failing_flush_case(run, rng, pv, idx):
+    """disconnect() with packets still queued, on a connection whose send()
+    fails - not with "the peer has closed", but with a time-out, an
+    unreachable host, a full buffer.  disconnect() does not raise, the thread
+    ends, the object connects again."""
+    import errno
+    import socket as _socket
+    from minecraft.networking.packets import serverbound
+    H = Harness(pv)
+    rec = pc.Recorder()
+    conn = None
+    kinds = [lambda: _socket.timeout('timed out'),
+             lambda: OSError(errno.ETIMEDOUT, 'Connection timed out'),
+             lambda: OSError(errno.EHOSTUNREACH, 'No route to host'),
+             lambda: OSError(errno.ENOBUFS, 'No buffer space available'),
+             lambda: BrokenPipeError(errno.EPIPE, 'Broken pipe'),
+             lambda: OSError(errno.ENETDOWN, 'Network is down')]
+    make_error = kinds[idx % len(kinds)]
+    armed = []
+    w = {'pv': pv, 'send_fails_with': repr(make_error())}
+    try:
+        K = pc.monitored_connection_class()
+        conn = K('127.0.0.1', H.server.port, username='vfuser',
+                 allowed_versions={pv}, handle_exception=rec.handle_exception,
+                 handle_exit=rec.handle_exit)
+        conn.vf_log = rec.log
+
+        def send_hook(kind, proxy, data):
+            if kind == 'send' and armed:
+                raise make_error()
+        conn.vf_send_hook = send_hook
+        conn.connect()
+        if not pc.wait_for(lambda: H.ios and getattr(H.ios[-1], 'phase', '')
+                           == 'play', 10.0):
+            return 'never reached play state'
+        raised = []
+        with conn._write_lock:
+            for k in range(3):
+                p = serverbound.play.ChatPacket()
+                p.message = 'queued %d' % k
+                conn.write_packet(p)
+            armed.append(1)
+            try:
+                conn.disconnect()
+            except Exception as e:
+                raised.append(('flushing disconnect()', repr(e)))
+        del armed[:]
+        ended = pc.wait_idle(conn, 10.0)
+        for k in range(2):
+            try:
+                conn.disconnect()
+            except Exception as e:
+                raised.append(('call %d afterwards' % (k + 1), repr(e)))
+        run.count('failing_flush_cases')
+        if raised:
+            run.violation('disconnect/raised-when-flush-fails',
+                          'disconnect() raised: a send() of its flush failed',
+                          dict(w, raised=raised))
+        if not ended:
+            run.violation('disconnect/thread-alive', 'the networking thread '
+                          'did not terminate after disconnect()',
+                          dict(w, threads=pc.dump_threads()[-600:]))
+            return None
+        H.next_mode = 'hold'
+        n0 = len(H.ios)
+        try:
+            conn.connect()
+        except Exception as e:
+            run.violation('reconnect/after-failing-flush', 'connect() raised '
+                          'on the idle object', dict(w, error=repr(e)))
+            return None
+        ok = pc.wait_for(lambda: len(H.ios) > n0 and getattr(
+            H.ios[-1], 'phase', '') == 'play', 10.0) and H.alive(H.ios[-1])
+        if not ok:
+            run.violation('reconnect/after-failing-flush', 'the object did '
+                          'not produce a working session afterwards',
+                          dict(w, exc=repr(rec.exceptions[:2])))
+        return None
+    finally:
+        del armed[:]
+        H.stop()
+        if conn is not None:
+            pc.safe_disconnect(conn)
+
+
 def stale_error_vs_successor_case(run, rng, pv, idx):
     """Delay injection at one statement: connect() is negotiating the version
     with a server that does not answer the status query; a user thread calls
@@ -2080,6 +2189,17 @@ def run(run):
         if err:
             run.inconclusive_because('stale error vs successor %d: %s'
                                      % (i, err))
+    for i in range(24 if thorough else 6):
+        if not run.mine(i):
+            continue
+        err = None
+        for attempt in range(3):
+            err = failing_flush_case(run, rng, (757, 404, 340)[i % 3], i)
+            if err is None:
+                break
+        run.case(('failing-flush', i))
+        if err:
+            run.inconclusive_because('failing flush %d: %s' % (i, err))
     n_sites = len(reaction_sites())
     sweep = list(range(n_sites * 2)) if thorough else \
         rng.sample(range(n_sites * 2), 24)
